@@ -74,6 +74,8 @@ Lemma g0_set_t_audio f x : g0 (set t_audio f x) = g0 x.
 Proof. reflexivity. Qed.
 Lemma g0_set_t_promo f x : g0 (set t_promo f x) = g0 x.
 Proof. reflexivity. Qed.
+Lemma g0_set_t_closing f x : g0 (set t_closing f x) = g0 x.
+Proof. reflexivity. Qed.
 Lemma g0_set_a_store f x : g0 (set a_store f x) = g0 x.
 Proof. reflexivity. Qed.
 Lemma g0_set_a_events f x : g0 (set a_events f x) = g0 x.
@@ -104,7 +106,7 @@ Lemma g0_set_p_out f x : g0 (set p_out f x) = g0 x.
 Proof. reflexivity. Qed.
 Lemma g0_set_p_panic f x : g0 (set p_panic f x) = g0 x.
 Proof. reflexivity. Qed.
-#[export] Hint Rewrite g0_set_p_id g0_set_p_sync_types g0_set_p_registry g0_set_p_ents g0_set_p_reserved g0_set_p_next_ent g0_set_t_u2e g0_set_t_e2u g0_set_t_queue g0_set_t_ctok g0_set_t_htok g0_set_t_tomb g0_set_t_ptok g0_set_t_mat g0_set_t_mesh g0_set_t_audio g0_set_t_promo g0_set_a_store g0_set_a_events g0_set_a_ready g0_set_h_cache g0_set_d_pending g0_set_n_promote_events g0_set_p_app_cmds g0_set_n_clients g0_set_n_srv_events g0_set_n_kicked g0_set_n_status g0_set_n_sticky_disconnect g0_set_n_inbox g0_set_p_out g0_set_p_panic : sess.
+#[export] Hint Rewrite g0_set_p_id g0_set_p_sync_types g0_set_p_registry g0_set_p_ents g0_set_p_reserved g0_set_p_next_ent g0_set_t_u2e g0_set_t_e2u g0_set_t_queue g0_set_t_ctok g0_set_t_htok g0_set_t_tomb g0_set_t_ptok g0_set_t_mat g0_set_t_mesh g0_set_t_audio g0_set_t_promo g0_set_t_closing g0_set_a_store g0_set_a_events g0_set_a_ready g0_set_h_cache g0_set_d_pending g0_set_n_promote_events g0_set_p_app_cmds g0_set_n_clients g0_set_n_srv_events g0_set_n_kicked g0_set_n_status g0_set_n_sticky_disconnect g0_set_n_inbox g0_set_p_out g0_set_p_panic : sess.
 
 Ltac proj_step :=
   first
